@@ -284,6 +284,29 @@ def run_cli_directed(ctx):
             e2e.write_files(d, files)
             for extra in ([], ['-S', 'all'], ['-v'], ['-S', 'fail', '-o', 'yaml'], ['-d', 'd.yaml']):
                 jobs.append({'args': ['validate', '-r', 'r.guard', '-d', 'd.json'] + extra, 'cwd': d}); meta.append(('console-cfn %s' % dname, jobs[-1]['args'], files))
+    # data documents in which a mapping repeats a key (a duplicated line or block; the loader keeps both entries, the value model
+    # one): every way a rule can walk all entries of that mapping
+    dup_docs = {'d.yaml': 'm:\n  a:\n    v: 1\n  b:\n    v: 2\n  a:\n    v: 3\nl:\n  - k: 1\n    k: 2\nt: x\nt: y\n',
+                'd.json': '{"m": {"a": {"v": 1}, "b": {"v": 2}, "a": {"v": 3}}, "l": [{"k": 1, "k": 2}], "t": "x", "t": "y"}',
+                'e.yaml': 'Resources:\n  r:\n    Type: T\n    Properties: {p: 1}\n  r:\n    Type: T\n    Properties: {p: 2}\n',
+                'e.json': '{"Resources": {"r": {"Type": "T", "Properties": {"p": 1}}, "r": {"Type": "T", "Properties": {"p": 2, "p": 3}}}}'}
+    dup_rules = ['m.* exists', 'm.*.v >= 1', 'm[*].v exists', 'm[ k | v >= 1 ] !empty', 'm[ v == 1 ] !empty', 'm[ keys == "a" ] exists', 'm { a exists }', 'm.* { v exists }', 'this.* exists', 'l[*].* exists',
+                 'l[*][ k | this >= 1 ] !empty', 't exists', 'Resources.*.Properties.* exists', 'Resources[ n | Type == "T" ].Properties.p >= 1', 'Resources.*[ Type == "T" ] { Properties.* >= 1 }',
+                 'some m.*.v == 3', 'm.a.v == 1 or m.a.v == 3', 'let e = m.*\n  %e.v exists', 'm.*.v in [1, 2, 3]', 'm empty', 'm.* !empty']
+    d = os.path.join(ctx.wd, 'cli%d' % len(jobs))
+    files = dict(dup_docs)
+    for i, r_ in enumerate(dup_rules):
+        files['r%d.guard' % i] = 'rule t {\n  %s\n}\n' % r_
+    files['all.guard'] = ''.join('rule t%d {\n  %s\n}\n' % (i, r_) for i, r_ in enumerate(dup_rules))
+    e2e.write_files(d, files)
+    for dn in dup_docs:
+        for i in list(range(len(dup_rules))) + ['all']:
+            rn = 'all.guard' if i == 'all' else 'r%d.guard' % i
+            for extra in ([], ['--structured', '-o', 'json', '-S', 'none'], ['-v']):
+                if extra and i != 'all' and i % 4:
+                    continue
+                jobs.append({'args': ['validate', '-r', rn, '-d', dn] + extra, 'cwd': d}); meta.append(('repeated mapping key in %s' % dn, jobs[-1]['args'], {rn: files[rn], dn: files[dn]}))
+        jobs.append({'args': ['rulegen', '-t', dn], 'cwd': d}); meta.append(('repeated mapping key in %s (rulegen)' % dn, jobs[-1]['args'], {dn: files[dn]}))
     # custom messages that are empty, or only separators, once the console reporters split them on ';' / newline and trim the
     # parts (emit_messages indexed part 0 of an empty list - fixed in /repo): on every kind of failing clause of a template
     msgs = ['<< ; >>', '<<;>>', '<< >>', '<<>>', '<<\n>>', '<< \n \n >>', '<<;;>>', '<< ;a >>', '<< a; >>', '<< a;;b >>', '<<\n a\n\n b\n>>', '<< é;中 >>', '<<\t;\t>>']
